@@ -300,3 +300,47 @@ fn c10_sortkey_order_axioms_3x3() {
   }
   kani::cover!(ab == Ordering::Less && a.parts[0].cmp(&b.parts[0]) == Ordering::Equal && a.parts[1].cmp(&b.parts[1]) == Ordering::Equal, "decided by the third key");
 }
+
+fn any_sort_field(kind: u8, order: SortOrder) -> ResolvedSortField {
+  // kind: 0 = _score, 1 = an i64 fast field, 2 = a keyword fast field (field names are
+  // irrelevant to the question asked here and left empty)
+  let field = match kind {
+    0 => SortField::Score,
+    1 => SortField::I64(String::new()),
+    _ => SortField::Keyword(String::new()),
+  };
+  ResolvedSortField {
+    field,
+    order,
+    selector: ValueSelector::from(order),
+  }
+}
+
+//@ props: C11
+//@ tier: quick
+//@ funcs: query::sort::SortPlan::is_score_only (decides whether search takes the score fast path: per-segment top-k by (score, doc) and the compact score cursor, which stores no secondary sort values)
+//@ symbolic: sort plans of one and of two keys, each key _score / an i64 field / a keyword field (symbolic), both directions
+//@ bounds: 1 and 2 sort keys
+//@ oracle: a plan is "score only" iff _score is its single key; a plan with a secondary key must never take the score fast path (its cursor and per-segment top-k would forget the secondary key, so pages repeat / drop tied hits)
+//@ outside: how search uses the flag
+#[kani::proof]
+#[kani::unwind(4)]
+fn c11_score_fast_path_only_for_single_score_key() {
+  let k0: u8 = kani::any();
+  let k1: u8 = kani::any();
+  kani::assume(k0 <= 2 && k1 <= 2);
+  let mut one = Vec::with_capacity(1);
+  one.push(any_sort_field(k0, any_order()));
+  let p1 = SortPlan { fields: one, hash: 0 };
+  assert!(p1.is_score_only() == (k0 == 0), "C11: a single-key plan is classified wrongly (score fast path)");
+  let mut two = Vec::with_capacity(2);
+  two.push(any_sort_field(k0, any_order()));
+  two.push(any_sort_field(k1, any_order()));
+  let p2 = SortPlan { fields: two, hash: 0 };
+  if k1 != 0 {
+    assert!(!p2.is_score_only(), "C11: a plan with a secondary sort key takes the score fast path (the compact cursor and the per-segment top-k forget the secondary key)");
+  }
+  kani::cover!(k0 == 0 && k1 == 1, "_score first, then a field");
+  std::mem::forget(p1);
+  std::mem::forget(p2);
+}
